@@ -101,6 +101,20 @@ def one(acc, framing, side, m, unit, tid, pid):
     if len(rx._buffer):
         acc.violation('C03/%s/%s/%s/deliver/residue/%s' % (framing, side, cname, pc), wit,
                       '%d bytes left in the receive buffer' % len(rx._buffer), cfg)
+    # the call shapes the library's own callers use: the unit as a scalar and no `single` keyword (clients,
+    # transaction manager), the unit list and no `single` keyword
+    for shape, args in (('scalar-unit', (unit,)), ('unit-list', ([unit],))):
+        rx2 = framers.make(framing, side)
+        got2 = []
+        try:
+            rx2.processIncomingPacket(pkt, got2.append, *args)
+        except Exception as e:   # noqa
+            acc.violation('C03/%s/%s/%s/deliver/raise:%s/%s' % (framing, side, cname, type(e).__name__, pc), dict(wit, call=shape),
+                          'receiver called as processIncomingPacket(packet, callback, %s) raised %r' % (shape, e), cfg)
+            continue
+        if len(got2) != 1 or type(got2[0]) is not type(o):
+            acc.violation('C03/%s/%s/%s/deliver/count/%s' % (framing, side, cname, pc), dict(wit, call=shape),
+                          'receiver called as processIncomingPacket(packet, callback, %s) delivered %d messages' % (shape, len(got2)), cfg)
 
 
 def shard_sweep(args):
